@@ -31,7 +31,40 @@ def canon(trace):
                     problems.append("%s starts before its dependency %s finished" % (o, dep))
     dup = [e for e in set(ents) if ents.count(e) > 1]
     return " | ".join("%s: %s" % (o, " ".join(blocks[o])) for o in sorted(blocks)) + " || problems=%s dup=%s last=%s" % (sorted(set(problems)), sorted(dup), order[-1] if order else "")
-diffcheck.main("C12", "exploration", gen.programs,
+def pyinit_post(rep, results, a):
+    """initialisers and init functions that call Python: llgo+CPython trace vs the reference toolchain's trace of the same program with sq() = math.Sqrt"""
+    import pyinit
+    from common import write_module, build_go, build_llgo, BuildError, workdir
+    from diff import run_batch
+    n = 0
+    for shape, spec in pyinit.SHAPES.items():
+        d = workdir("C12", "pyinit_" + shape)
+        outs = {}
+        for py in (False, True):
+            src = os.path.join(d, "py" if py else "go")
+            files = pyinit.program(spec, py)
+            if py:
+                files["go.sum"] = open("/verif/checks/c19/go.sum").read()
+            write_module(src, files)
+            exe = os.path.join(d, "py.exe" if py else "go.exe")
+            try:
+                if py:
+                    build_llgo(src, exe, backend="A", env_extra={"LLGO_LIB_PYTHON": "/usr/lib/x86_64-linux-gnu/python3.11"}, cachetag="-py")
+                else:
+                    build_go(src, exe)
+            except BuildError as e:
+                rep.violation("build:pyinit:%s:%s" % (shape, "llgo" if py else "go"), "pyinit program does not build:\n" + str(e)[-2500:]); break
+            cases, _, crashes = run_batch(exe, timeout=120)
+            outs[py] = cases.get("order", "<no output; crashes=%s>" % (crashes,))
+        if len(outs) == 2:
+            n += 1
+            if outs[True] != outs[False]:
+                rep.violation("pyinit:" + shape, "initialisers calling Python, shape %s: llgo trace %r, reference trace %r" % (shape, outs[True], outs[False]), {"program": "pyinit_" + shape})
+    rep.coverage["python_initialiser_programs"] = n
+    rep.coverage["evaluations"] = rep.coverage.get("evaluations", 0) + n
+
+
+diffcheck.main("C12", "exploration", gen.programs, post=pyinit_post,
     rule="program = one import DAG on <=3 (thorough: <=4, all 31) library packages up to isomorphism, main importing the roots or every package (reverse order), x content "
          "variants {plain; several init functions per file and blank variables; blank imports; a package-level initialiser using the patched sync/atomic; all}. Every package has two "
          "files whose declaration dependencies run against file order, cross-package initialisers calling into the imported package, and init functions in both files. "
